@@ -429,7 +429,55 @@ type c03CaseRes struct {
 	maxHeld     int
 	nreq        int
 	nops        int
+	wire        []string // the client's Write calls, classified (see c03WireRec)
+	twoPart     int
 }
+
+// c03WireRec records the Write calls the client makes on its transport, one token per call:
+//
+//	o<id>  a whole packet in one Write          h<id>  the header of a packet whose payload follows in its own Write
+//	p<id>  the payload that completes h<id>      x      anything else (a Write that is not where a packet part may start)
+//
+// The token list is what coq/Conn/WireMutex.v calls the wire; `scan` reads it.
+type c03WireRec struct {
+	w      io.WriteCloser
+	mu     sync.Mutex
+	toks   []string
+	open   bool
+	openID uint32
+	remain int
+	two    int
+}
+
+func (r *c03WireRec) Write(b []byte) (int, error) {
+	r.mu.Lock()
+	switch {
+	case r.open && len(b) == r.remain:
+		r.toks = append(r.toks, fmt.Sprintf("p%d", r.openID))
+		r.open = false
+	case len(b) >= 5 && int(binary.BigEndian.Uint32(b[:4])) >= len(b)-4:
+		l := int(binary.BigEndian.Uint32(b[:4]))
+		var id uint32
+		if b[4] != fxpInit && len(b) >= 9 {
+			id = binary.BigEndian.Uint32(b[5:9])
+		}
+		if l == len(b)-4 {
+			r.toks = append(r.toks, fmt.Sprintf("o%d", id))
+		} else {
+			r.toks = append(r.toks, fmt.Sprintf("h%d", id))
+			if !r.open {
+				r.open, r.openID, r.remain = true, id, l-(len(b)-4)
+				r.two++
+			}
+		}
+	default:
+		r.toks = append(r.toks, "x")
+	}
+	r.mu.Unlock()
+	return r.w.Write(b)
+}
+
+func (r *c03WireRec) Close() error { return r.w.Close() }
 
 func c03Within(d time.Duration, fn func()) bool {
 	ch := make(chan struct{})
@@ -569,6 +617,7 @@ func c03RunCase(class string, G, W int, kinds []string, nops int, perm func(batc
 		opts = []sftp.ClientOption{sftp.MaxPacketUnchecked(16), sftp.MaxConcurrentRequestsPerFile(4)}
 	}
 	p := newC03Peer(c2, idle, perm)
+	rec := &c03WireRec{w: c1}
 	finish := func() {
 		c1.Close()
 		c2.Close()
@@ -584,10 +633,13 @@ func c03RunCase(class string, G, W int, kinds []string, nops int, perm func(batc
 		res.outOfOrder, res.nonIdentity, res.maxHeld, res.nreq = p.outOfOrder, p.nonIdentity, p.maxHeld, p.nreq
 		res.batches = p.batches
 		p.mu.Unlock()
+		rec.mu.Lock()
+		res.wire, res.twoPart = append([]string(nil), rec.toks...), rec.two
+		rec.mu.Unlock()
 	}
 	var cl *sftp.Client
 	var err error
-	if !c03Within(c03Watchdog, func() { cl, err = sftp.NewClientPipe(c1, c1, opts...) }) || err != nil {
+	if !c03Within(c03Watchdog, func() { cl, err = sftp.NewClientPipe(c1, rec, opts...) }) || err != nil {
 		add("harness: session setup failed")
 		finish()
 		return res
@@ -766,6 +818,17 @@ func runC03(c *Ctx) {
 					}
 				}
 				c.Oracle(n, false, strings.Join(u, " ; "))
+			}
+			// the contiguity clause, tied to coq/Conn/WireMutex.v: the Write calls of this run, read by the model's `scan`
+			if len(r.wire) > 0 {
+				wn := c.Case("wirescan", kvi("g", cb.g), kvi("w", cb.w), kvi("hist", h), kvs("class", cb.class), kvi("writes", len(r.wire)), "wire="+strings.Join(r.wire, ","))
+				c.Obs(wn, "scan=whole")
+				c.Oracle(wn, true, "")
+				if cb.g >= 2 && r.twoPart > 0 {
+					c.NT(wn)
+				}
+				c.StatN("wire_writes", len(r.wire))
+				c.StatN("wire_two_part_packets", r.twoPart)
 			}
 		}
 	}
